@@ -51,39 +51,40 @@ fn covers(a: &Assertion<Tiny>, s: usize) -> bool {
         s < N && s >= a.first_step && (s - a.first_step) % a.stride == 0
     }
 }
-/// single / periodic / sequence assertion fitting a trace of length 8; `vals` supplies the values
-fn any_assertion(vals: [Tiny; 4]) -> Assertion<Tiny> {
-    let kind = vs::any_u8();
-    vs::assume(kind < 3);
+/// the assertion shapes fitting a trace of length 8: the shape (kind, stride, number of values) is concrete
+/// in each harness, the first step and the values are symbolic (with a symbolic shape the same obligations
+/// needed more than 12 GB of solver memory; per-shape harnesses take seconds)
+fn shape(kind: u8, vals: [Tiny; 4]) -> Assertion<Tiny> {
     let first = vs::any_usize();
-    let ls = vs::any_u32();
-    vs::assume(ls >= 1 && ls <= 3);
-    let stride = 1usize << ls;
-    if kind == 0 {
-        vs::assume(first < N);
-        Assertion::single(0, first, vals[0])
-    } else if kind == 1 {
-        vs::assume(first < stride);
-        Assertion::periodic(0, first, stride, vals[0])
-    } else {
-        vs::assume(first < stride && stride < N);
-        let len = N / stride; // 4 or 2
-        let mut v = Vec::new();
-        let mut i = 0;
-        while i < len {
-            v.push(vals[i]);
-            i += 1;
-        }
-        Assertion::sequence(0, first, stride, v)
+    match kind {
+        0 => {
+            vs::assume(first < N);
+            Assertion::single(0, first, vals[0])
+        },
+        1 => {
+            vs::assume(first < 2);
+            Assertion::periodic(0, first, 2, vals[0])
+        },
+        2 => {
+            vs::assume(first < 4);
+            Assertion::periodic(0, first, 4, vals[0])
+        },
+        3 => {
+            vs::assume(first < 8);
+            Assertion::periodic(0, first, 8, vals[0])
+        },
+        4 => {
+            vs::assume(first < 2);
+            Assertion::sequence(0, first, 2, alloc::vec![vals[0], vals[1], vals[2], vals[3]])
+        },
+        _ => {
+            vs::assume(first < 4);
+            Assertion::sequence(0, first, 4, alloc::vec![vals[0], vals[1]])
+        },
     }
 }
 
-//# harness: fn=ConstraintDivisor::from_assertion, degree, evaluate_at; label=bounded(F_17, trace length 8; every single / periodic / sequence assertion); tier=quick; uses=any_assertion,covers,domain_point; timeout=600
-#[cfg_attr(kani, kani::proof)]
-#[cfg_attr(kani, kani::unwind(12))]
-#[cfg_attr(kani, kani::stub(alloc::fmt::format, vs::fake_format))]
-pub fn k_c22_assertion_divisor_zeros() {
-    let a = any_assertion([Tiny::ONE; 4]);
+fn divisor_zeros(a: Assertion<Tiny>) {
     let d = ConstraintDivisor::<Tiny>::from_assertion(&a, N);
     let mut count = 0;
     let mut exact = true;
@@ -100,16 +101,87 @@ pub fn k_c22_assertion_divisor_zeros() {
     }
     vcheck!("C22.divisor.vanishes_exactly_on_asserted_steps", exact);
     vcheck!("C22.divisor.degree_is_number_of_steps", d.degree() == count);
-    vreach!("C22.divisor.reach");
 }
 
-//# harness: fn=ConstraintDivisor::from_transition, degree, evaluate_exemptions_at; label=bounded(F_17, trace length 8, 1..=3 exemptions); tier=quick; props=C23; uses=domain_point; timeout=600
+//# harness: fn=ConstraintDivisor::from_assertion, degree, evaluate_at (single assertion, every first step); label=bounded(F_17, trace length 8; single assertion, every first step, symbolic first step); tier=quick; props=C22; uses=shape,divisor_zeros,covers,domain_point; timeout=900
 #[cfg_attr(kani, kani::proof)]
 #[cfg_attr(kani, kani::unwind(12))]
 #[cfg_attr(kani, kani::stub(alloc::fmt::format, vs::fake_format))]
-pub fn k_c23_transition_divisor_zeros() {
-    let k = vs::any_usize();
-    vs::assume(k >= 1 && k <= 3);
+pub fn k_c22_divisor_zeros_single() {
+    divisor_zeros(shape(0, [Tiny::ONE; 4]));
+    vreach!("C22.divisor.single.reach");
+}
+
+//# harness: fn=ConstraintDivisor::from_assertion, degree, evaluate_at (periodic assertion with stride 2); label=bounded(F_17, trace length 8; periodic assertion with stride 2, symbolic first step); tier=quick; props=C22; uses=shape,divisor_zeros,covers,domain_point; timeout=900
+#[cfg_attr(kani, kani::proof)]
+#[cfg_attr(kani, kani::unwind(12))]
+#[cfg_attr(kani, kani::stub(alloc::fmt::format, vs::fake_format))]
+pub fn k_c22_divisor_zeros_periodic2() {
+    divisor_zeros(shape(1, [Tiny::ONE; 4]));
+    vreach!("C22.divisor.periodic2.reach");
+}
+
+//# harness: fn=ConstraintDivisor::from_assertion, degree, evaluate_at (periodic assertion with stride 4); label=bounded(F_17, trace length 8; periodic assertion with stride 4, symbolic first step); tier=quick; props=C22; uses=shape,divisor_zeros,covers,domain_point; timeout=900
+#[cfg_attr(kani, kani::proof)]
+#[cfg_attr(kani, kani::unwind(12))]
+#[cfg_attr(kani, kani::stub(alloc::fmt::format, vs::fake_format))]
+pub fn k_c22_divisor_zeros_periodic4() {
+    divisor_zeros(shape(2, [Tiny::ONE; 4]));
+    vreach!("C22.divisor.periodic4.reach");
+}
+
+//# harness: fn=ConstraintDivisor::from_assertion, degree, evaluate_at (periodic assertion with stride 8); label=bounded(F_17, trace length 8; periodic assertion with stride 8, symbolic first step); tier=quick; props=C22; uses=shape,divisor_zeros,covers,domain_point; timeout=900
+#[cfg_attr(kani, kani::proof)]
+#[cfg_attr(kani, kani::unwind(12))]
+#[cfg_attr(kani, kani::stub(alloc::fmt::format, vs::fake_format))]
+pub fn k_c22_divisor_zeros_periodic8() {
+    divisor_zeros(shape(3, [Tiny::ONE; 4]));
+    vreach!("C22.divisor.periodic8.reach");
+}
+
+//# harness: fn=ConstraintDivisor::from_assertion, degree, evaluate_at (sequence assertion of 4 values with stride 2); label=bounded(F_17, trace length 8; sequence assertion of 4 values with stride 2, symbolic first step); tier=quick; props=C22; uses=shape,divisor_zeros,covers,domain_point; timeout=900
+#[cfg_attr(kani, kani::proof)]
+#[cfg_attr(kani, kani::unwind(12))]
+#[cfg_attr(kani, kani::stub(alloc::fmt::format, vs::fake_format))]
+pub fn k_c22_divisor_zeros_sequence4x2() {
+    divisor_zeros(shape(4, [Tiny::ONE; 4]));
+    vreach!("C22.divisor.sequence4x2.reach");
+}
+
+//# harness: fn=ConstraintDivisor::from_assertion, degree, evaluate_at (sequence assertion of 2 values with stride 4); label=bounded(F_17, trace length 8; sequence assertion of 2 values with stride 4, symbolic first step); tier=quick; props=C22; uses=shape,divisor_zeros,covers,domain_point; timeout=900
+#[cfg_attr(kani, kani::proof)]
+#[cfg_attr(kani, kani::unwind(12))]
+#[cfg_attr(kani, kani::stub(alloc::fmt::format, vs::fake_format))]
+pub fn k_c22_divisor_zeros_sequence2x4() {
+    divisor_zeros(shape(5, [Tiny::ONE; 4]));
+    vreach!("C22.divisor.sequence2x4.reach");
+}
+
+//# harness: fn=ConstraintDivisor::from_transition, degree, evaluate_exemptions_at (1 exemption(s)); label=bounded(F_17, trace length 8, 1 exemption(s)); tier=quick; props=C23; uses=transition_divisor_zeros,domain_point; timeout=900
+#[cfg_attr(kani, kani::proof)]
+#[cfg_attr(kani, kani::unwind(12))]
+#[cfg_attr(kani, kani::stub(alloc::fmt::format, vs::fake_format))]
+pub fn k_c23_transition_divisor_zeros_1() {
+    transition_divisor_zeros(1);
+    vreach!("C23.transition_divisor.1.reach");
+}
+//# harness: fn=ConstraintDivisor::from_transition, degree, evaluate_exemptions_at (2 exemption(s)); label=bounded(F_17, trace length 8, 2 exemption(s)); tier=quick; props=C23; uses=transition_divisor_zeros,domain_point; timeout=900
+#[cfg_attr(kani, kani::proof)]
+#[cfg_attr(kani, kani::unwind(12))]
+#[cfg_attr(kani, kani::stub(alloc::fmt::format, vs::fake_format))]
+pub fn k_c23_transition_divisor_zeros_2() {
+    transition_divisor_zeros(2);
+    vreach!("C23.transition_divisor.2.reach");
+}
+//# harness: fn=ConstraintDivisor::from_transition, degree, evaluate_exemptions_at (3 exemption(s)); label=bounded(F_17, trace length 8, 3 exemption(s)); tier=quick; props=C23; uses=transition_divisor_zeros,domain_point; timeout=900
+#[cfg_attr(kani, kani::proof)]
+#[cfg_attr(kani, kani::unwind(12))]
+#[cfg_attr(kani, kani::stub(alloc::fmt::format, vs::fake_format))]
+pub fn k_c23_transition_divisor_zeros_3() {
+    transition_divisor_zeros(3);
+    vreach!("C23.transition_divisor.3.reach");
+}
+fn transition_divisor_zeros(k: usize) {
     let d = ConstraintDivisor::<Tiny>::from_transition(N, k);
     vcheck!("C23.transition_divisor.degree", d.degree() == N - k);
     let mut ok = true;
@@ -130,16 +202,11 @@ pub fn k_c23_transition_divisor_zeros() {
         s += 1;
     }
     vcheck!("C23.transition_divisor.vanishes_except_on_exempt_steps", ok);
-    vreach!("C23.transition_divisor.reach");
 }
 
-//# harness: fn=BoundaryConstraint::new, evaluate_at; label=bounded(F_17, trace length 8; every assertion kind, up to 4 symbolic asserted values, symbolic trace value); tier=quick; uses=any_assertion,covers,domain_point,any_tiny; timeout=900
-#[cfg_attr(kani, kani::proof)]
-#[cfg_attr(kani, kani::unwind(12))]
-#[cfg_attr(kani, kani::stub(alloc::fmt::format, vs::fake_format))]
-pub fn k_c22_boundary_constraint_zero_iff_value() {
-    let vals = [any_tiny(), any_tiny(), any_tiny(), any_tiny()];
-    let a = any_assertion(vals);
+/// a boundary constraint built from `a` evaluates to zero at the domain point of an asserted step exactly
+/// when the trace holds the asserted value there
+fn zero_iff_value(a: Assertion<Tiny>) {
     let inv_g = Tiny::get_root_of_unity(3).inv();
     let mut twiddles = BTreeMap::new();
     let c = BoundaryConstraint::<Tiny, Tiny>::new(a.clone(), inv_g, &mut twiddles, Tiny::ONE);
@@ -150,7 +217,60 @@ pub fn k_c22_boundary_constraint_zero_iff_value() {
     let expected = if a.values.len() == 1 { a.values[0] } else { a.values[(s - a.first_step) / a.stride] };
     let e = c.evaluate_at(domain_point(s), trace_value);
     vcheck!("C22.boundary_constraint.zero_iff_trace_holds_asserted_value", (e == Tiny::ZERO) == (trace_value == expected));
-    vreach!("C22.boundary.reach");
+}
+
+//# harness: fn=BoundaryConstraint::new, evaluate_at (single assertion, every first step); label=bounded(F_17, trace length 8; single assertion, every first step, symbolic first step, asserted values and trace value); tier=quick; props=C22; uses=shape,zero_iff_value,covers,domain_point,any_tiny; timeout=900
+#[cfg_attr(kani, kani::proof)]
+#[cfg_attr(kani, kani::unwind(12))]
+#[cfg_attr(kani, kani::stub(alloc::fmt::format, vs::fake_format))]
+pub fn k_c22_zero_iff_value_single() {
+    zero_iff_value(shape(0, [any_tiny(), any_tiny(), any_tiny(), any_tiny()]));
+    vreach!("C22.boundary.single.reach");
+}
+
+//# harness: fn=BoundaryConstraint::new, evaluate_at (periodic assertion with stride 2); label=bounded(F_17, trace length 8; periodic assertion with stride 2, symbolic first step, asserted values and trace value); tier=quick; props=C22; uses=shape,zero_iff_value,covers,domain_point,any_tiny; timeout=900
+#[cfg_attr(kani, kani::proof)]
+#[cfg_attr(kani, kani::unwind(12))]
+#[cfg_attr(kani, kani::stub(alloc::fmt::format, vs::fake_format))]
+pub fn k_c22_zero_iff_value_periodic2() {
+    zero_iff_value(shape(1, [any_tiny(), any_tiny(), any_tiny(), any_tiny()]));
+    vreach!("C22.boundary.periodic2.reach");
+}
+
+//# harness: fn=BoundaryConstraint::new, evaluate_at (periodic assertion with stride 4); label=bounded(F_17, trace length 8; periodic assertion with stride 4, symbolic first step, asserted values and trace value); tier=quick; props=C22; uses=shape,zero_iff_value,covers,domain_point,any_tiny; timeout=900
+#[cfg_attr(kani, kani::proof)]
+#[cfg_attr(kani, kani::unwind(12))]
+#[cfg_attr(kani, kani::stub(alloc::fmt::format, vs::fake_format))]
+pub fn k_c22_zero_iff_value_periodic4() {
+    zero_iff_value(shape(2, [any_tiny(), any_tiny(), any_tiny(), any_tiny()]));
+    vreach!("C22.boundary.periodic4.reach");
+}
+
+//# harness: fn=BoundaryConstraint::new, evaluate_at (periodic assertion with stride 8); label=bounded(F_17, trace length 8; periodic assertion with stride 8, symbolic first step, asserted values and trace value); tier=quick; props=C22; uses=shape,zero_iff_value,covers,domain_point,any_tiny; timeout=900
+#[cfg_attr(kani, kani::proof)]
+#[cfg_attr(kani, kani::unwind(12))]
+#[cfg_attr(kani, kani::stub(alloc::fmt::format, vs::fake_format))]
+pub fn k_c22_zero_iff_value_periodic8() {
+    zero_iff_value(shape(3, [any_tiny(), any_tiny(), any_tiny(), any_tiny()]));
+    vreach!("C22.boundary.periodic8.reach");
+}
+
+//# harness: fn=BoundaryConstraint::new, evaluate_at (sequence assertion of 4 values with stride 2); label=bounded(F_17, trace length 8; sequence assertion of 4 values with stride 2, symbolic first step, asserted values and trace value); tier=quick; props=C22; uses=shape,zero_iff_value,covers,domain_point,any_tiny; timeout=900
+#[cfg_attr(kani, kani::proof)]
+#[cfg_attr(kani, kani::unwind(12))]
+#[cfg_attr(kani, kani::stub(alloc::fmt::format, vs::fake_format))]
+pub fn k_c22_zero_iff_value_sequence4x2() {
+    zero_iff_value(shape(4, [any_tiny(), any_tiny(), any_tiny(), any_tiny()]));
+    vreach!("C22.boundary.sequence4x2.reach");
+}
+
+//# harness: fn=BoundaryConstraint::new, evaluate_at (sequence assertion of 2 values with stride 4); label=bounded(F_17, trace length 8; sequence assertion of 2 values with stride 4, symbolic first step, asserted values and trace value); tier=quick; props=C22; uses=shape,zero_iff_value,covers,domain_point,any_tiny; timeout=900
+#[cfg_attr(kani, kani::proof)]
+#[cfg_attr(kani, kani::unwind(12))]
+#[cfg_attr(kani, kani::stub(alloc::fmt::format, vs::fake_format))]
+pub fn k_c22_zero_iff_value_sequence2x4() {
+    zero_iff_value(shape(5, [any_tiny(), any_tiny(), any_tiny(), any_tiny()]));
+    vreach!("C22.boundary.sequence2x4.reach");
 }
 
 /// two assertions that tie on (stride, first step) and differ only in their column, listed in both
@@ -162,16 +282,20 @@ fn order_independent(a0: Assertion<Tiny>, a1: Assertion<Tiny>) {
     vcheck!("C22.prepare_assertions.natural_order", x.len() == 2 && x[0].column == 0 && x[1].column == 1);
 }
 
-//# harness: fn=boundary::prepare_assertions (order independence of the natural order); label=bounded(F_17, trace length 8; pairs of single / periodic assertions tying on (stride, first step), both listing orders; first step symbolic); tier=quick; uses=order_independent; timeout=900
+//# harness: fn=boundary::prepare_assertions (order independence of the natural order); label=bounded(F_17, trace length 8; a pair of single assertions on the same step of two columns, both listing orders); tier=quick; props=C22; uses=order_independent; timeout=900
 #[cfg_attr(kani, kani::proof)]
 #[cfg_attr(kani, kani::unwind(10))]
 #[cfg_attr(kani, kani::stub(alloc::fmt::format, vs::fake_format))]
 pub fn k_c22_prepare_assertions_order_independent() {
-    let first = vs::any_usize();
-    vs::assume(first < N);
-    order_independent(Assertion::single(0, first, Tiny::new(1)), Assertion::single(1, first, Tiny::new(2)));
-    let f2 = vs::any_usize();
-    vs::assume(f2 < 2);
-    order_independent(Assertion::periodic(0, f2, 2, Tiny::new(1)), Assertion::periodic(1, f2, 2, Tiny::new(2)));
+    order_independent(Assertion::single(0, 3, Tiny::new(1)), Assertion::single(1, 3, Tiny::new(2)));
     vreach!("C22.prepare.reach");
+}
+
+//# harness: fn=boundary::prepare_assertions (order independence, periodic assertions); label=bounded(F_17, trace length 8; a pair of periodic assertions tying on (stride, first step), both listing orders); tier=quick; props=C22; uses=order_independent; timeout=900
+#[cfg_attr(kani, kani::proof)]
+#[cfg_attr(kani, kani::unwind(10))]
+#[cfg_attr(kani, kani::stub(alloc::fmt::format, vs::fake_format))]
+pub fn k_c22_prepare_assertions_order_independent_periodic() {
+    order_independent(Assertion::periodic(0, 1, 2, Tiny::new(1)), Assertion::periodic(1, 1, 2, Tiny::new(2)));
+    vreach!("C22.prepare.periodic.reach");
 }
